@@ -8,7 +8,7 @@ import corpus
 PID = "C06"
 # alphabet of lexer-relevant symbols; index 1 is the empty string so that shorter strings are covered
 ALPHABET = ["", '"', "'", "\\", "u", "0", "a", "#", ".", ":", "(", ")", "-", ",", " ", "\t", "\r", "\n", "\0",
-            "é", "€", "😀", "x", "1", "@", "+"]
+            "é", "€", "😀", "x", "1", "@", "+", "\u3000", "\u00a0"]   # the last two: multi-byte blanks (char::is_whitespace)
 
 
 def mutations(text, r, n):
@@ -101,6 +101,16 @@ def run(tier, replay=None):
         add("corpus", mode="observe", text=p, want=["lints", "items", "yaml"])
         for m in mutations(p, r, nmut):
             add("mutation", mode="observe", text=m, want=["lints", "items"])
+    # long runs of one symbol / of a pair of symbols (recursion depth, quadratic scans); judged with a longer watchdog
+    reps = []
+    nrep1, nrep2 = (30000, 4000) if tier == "quick" else (200000, 20000)
+    syms = [a for a in ALPHABET[1:]] + ["li a0, 1\n", "L:\n", ".word 1\n", "call f\n", "# c\n", ".include \"a.s\"\n"]
+    for a in syms:
+        reps.append(("repeat:1", dict(mode="observe", text=a * (nrep1 // max(1, len(a))), want=[])))
+    for a in ALPHABET[1:]:
+        for b in ALPHABET[1:]:
+            if a != b and (tier == "thorough" or (ALPHABET.index(a) * 31 + ALPHABET.index(b)) % 4 == seed() % 4):
+                reps.append(("repeat:2", dict(mode="observe", text=(a + b) * nrep2, want=[])))
     sizes = (20, 40, 80) if tier == "quick" else (50, 100, 200, 400)
     for n in sizes:
         for name, t in scaled(n).items():
@@ -113,7 +123,13 @@ def run(tier, replay=None):
         kw = dict(kw)
         kw["id"] = i + 1
         hc.append(kw)
-    tp, hevs = run_harness(rvh, hc, wd, "robust", timeout_ms=10000)
+    tp, hevs = run_harness_par(rvh, hc, wd, "robust", timeout_ms=60000 if replay else 10000, shards=6)
+    if not replay:
+        rc = [dict(kw, id=len(hc) + i + 1) for i, (cls, kw) in enumerate(reps)]
+        tp2, hevs2 = run_harness_par(rvh, rc, wd, "robust-rep", timeout_ms=60000, shards=6)
+        cases += reps
+        hc += rc
+        hevs += hevs2
     evs = []
     growth = {}
     for (cls, kw), e in zip(cases, hevs):
@@ -137,26 +153,55 @@ def run(tier, replay=None):
     cli_inputs += [("string", {"main.s": "".join(ALPHABET[i - 1] for i in c["s"])}) for c in sres[0][:: max(1, len(sres[0]) // (40 if tier == "quick" else 400))]]
     cli_inputs += [("include-graph", dict(f, **{"main.s": f["a.s"]})) for f in gfiles[:: max(1, len(gfiles) // (25 if tier == "quick" else 300))]]
     cli_inputs += [("mutation", {"main.s": m}) for m in mutations(corpus.VIOLATING, r, 10 if tier == "quick" else 150)]
+    # text with multi-byte characters in front of a reported position (pretty printer: columns vs bytes)
+    WIDE = {"é", "€", "😀", "\u3000", "\u00a0"}
+    wide = []
+    for c in sres[0]:
+        t = [ALPHABET[i - 1] for i in c["s"]]
+        if any(x in WIDE for x in t[:-1]) and t[-1] not in WIDE and t[-1].strip() != "":
+            wide.append("".join(t))
+    r.shuffle(wide)
+    for t in wide[:1500 if tier == "quick" else 20000]:
+        cli_inputs.append(("string-wide", {"main.s": t}))
+    for wch in sorted(WIDE):
+        for t in (f'.ascii "{wch}{wch}" 5\n', f'{wch}{wch}li a0\n', f'li t0, 1 # {wch}\n', f"li a0, '{wch}' 7\n", f'\t{wch} addi t0, t0\n',
+                  f'L{wch}: j L{wch}\n', f'# {wch}\nmain:\n    lw a0, {wch}(sp)\n'):
+            cli_inputs.append(("wide-line", {"main.s": t}))
+    # the long runs again through the binary (its own stack size and frame sizes)
+    if not replay:
+        for cls, kw in reps:
+            if cls == "repeat:1" or r.random() < 0.15:
+                cli_inputs.append(("repeat", {"main.s": kw["text"]}))
     bins = [("debug", rva)]
     if tier == "thorough":
         bins.append(("release", build_cli(release=True)))
-    ncli = 0
+    jobs = []
     with tempfile.TemporaryDirectory(dir=WORK) as td:
         for k, (cls, files) in enumerate(cli_inputs):
             d = os.path.join(td, str(k))
             os.makedirs(d)
             for n, t in files.items():
-                open(os.path.join(d, n), "w", newline="").write(t)
+                open(os.path.join(d, n), "w", newline="", encoding="utf-8").write(t)
             for bname, b in bins:
-                for m in (modes if cls != "string" else modes[:4]):
-                    ncli += 1
-                    try:
-                        p = subprocess.run([b, "lint", os.path.join(d, "main.s")] + m, stdout=subprocess.PIPE, stderr=subprocess.PIPE, timeout=10)
-                        evs.append({"ev": "cli", "id": len(evs) + 1, "class": cls + ":" + bname, "timeout": False, "rc": p.returncode,
-                                    "panicked": b"panicked" in p.stderr, "mode": " ".join(m), "files": files})
-                    except subprocess.TimeoutExpired:
-                        evs.append({"ev": "cli", "id": len(evs) + 1, "class": cls + ":" + bname, "timeout": True, "rc": -1,
-                                    "panicked": False, "mode": " ".join(m), "files": files})
+                ms = modes if cls not in ("string", "string-wide", "wide-line", "repeat") else (modes[:4] if cls == "string" else [[], ["--no-color"]])
+                for m in ms:
+                    jobs.append((cls, files, bname, b, m, os.path.join(d, "main.s")))
+
+        def one(job):
+            cls, files, bname, b, m, path = job
+            try:
+                p = subprocess.run([b, "lint", path] + m, stdout=subprocess.PIPE, stderr=subprocess.PIPE,
+                                   timeout=60 if cls == "repeat" else 10)
+                return {"ev": "cli", "class": cls + ":" + bname, "timeout": False, "rc": p.returncode,
+                        "panicked": b"panicked" in p.stderr or b"overflowed its stack" in p.stderr, "mode": " ".join(m), "files": files}
+            except subprocess.TimeoutExpired:
+                return {"ev": "cli", "class": cls + ":" + bname, "timeout": True, "rc": -1,
+                        "panicked": False, "mode": " ".join(m), "files": files}
+        from concurrent.futures import ThreadPoolExecutor
+        with ThreadPoolExecutor(max_workers=10) as ex:
+            cli_evs = list(ex.map(one, jobs))
+    ncli = len(cli_evs)
+    evs += cli_evs
     for i, e in enumerate(evs):
         e["id"] = i + 1
     slim = [{k: v for k, v in e.items() if k != "files"} for e in evs]
@@ -179,7 +224,7 @@ def run(tier, replay=None):
     out.sample({"class": "include-graph", "files": gfiles[len(gfiles) // 2]})
     out.assumptions += [
         "arbitrary Unicode text is explored over a structured, bounded input model (alphabet strings, mutations, generated programs), not by coverage-guided fuzzing",
-        "watchdog 10 s per input of < 2 kB; a timeout, panic or crash is a violation",
+        "watchdog 10 s per input of < 2 kB, 60 s for the long-run inputs (30-200 kB of one or two repeated symbols); a timeout, panic or crash is a violation",
         "growth is judged on deterministic hook counters (sweeps per pass <= 4N+3, the limit PassLoop.tla establishes), never on wall-clock ratios",
         "debug profile (overflow checks on) for the library entry point; the release binary is exercised in the thorough tier",
     ]
@@ -187,5 +232,5 @@ def run(tier, replay=None):
         "evaluations": len(evs), "distinct_nontrivial": len({json.dumps(kw, sort_keys=True) for _, kw in cases}),
         "classes": dict(classes), "cli_runs": ncli, "growth_nodes_vs_max_sweeps": {k: sorted(v) for k, v in growth.items()},
         "exhaustive": False,
-        "rule": "all strings over a 26-symbol lexer alphabet up to length 3 (quick) / 4 (thorough) [exhaustive, Gen_Strings]; Gen_Overflow boundary-grid programs (28 shapes); all include graphs over three files incl. self loops, cycles, missing files [Gen_IncGraph, exhaustive in thorough], also with a reader that never reports cycles; Gen_Values/Gen_Flow simulations; every layout order of a 2..3 (thorough: 4) block cycle [Gen_Blocks, exhaustive]; token/line mutations and truncations of corpus programs; scaled programs for the sweep bound; rva in 10 output modes",
+        "rule": "long runs of every alphabet symbol, of statement lines and of symbol pairs (harness and rva binary); text with multi-byte characters before a reported position through the pretty printer; all strings over a 28-symbol lexer alphabet up to length 3 (quick) / 4 (thorough) [exhaustive, Gen_Strings]; Gen_Overflow boundary-grid programs (28 shapes); all include graphs over three files incl. self loops, cycles, missing files [Gen_IncGraph, exhaustive in thorough], also with a reader that never reports cycles; Gen_Values/Gen_Flow simulations; every layout order of a 2..3 (thorough: 4) block cycle [Gen_Blocks, exhaustive]; token/line mutations and truncations of corpus programs; scaled programs for the sweep bound; rva in 10 output modes",
     })
